@@ -97,7 +97,7 @@ class Pair:
         self.l = self.d1 // gcd(self.d1, self.d2) * self.d2
         self.f1 = (self.n1 * self.l) // (self.d1 * self.g)
         self.f2 = (self.n2 * self.l) // (self.d2 * self.g)
-        self.common_ok = self.l <= MAX64 and self.n1 * self.l <= MAX64 and self.n2 * self.l <= MAX64
+        self.common_ok = self.l <= MAX64 and self.f1 <= MAX64 and self.f2 <= MAX64   # = Spec.common_ok
 
     def head(self, op):
         N1, D1 = PER[self.i]
@@ -266,6 +266,14 @@ def gen(tier, rng):
                             out.append(f"{h('round')} {c}")
                     if P.cast_ok(c) and (not quick or c % 2 == 0 or abs(c) > 10**6):
                         out.append(f"{h('conv')} {c}")
+                # casts whose result leaves the 32-bit target (defined: modular conversion)
+                if P.w2 == 32:
+                    for q in (1 << 31, (1 << 31) + 1, (1 << 32) - 1, 1 << 32, (1 << 32) + 5, 3 * (1 << 31) + 7, 1 << 40):
+                        for sg in (1, -1):
+                            c0 = sg * (q * P.B // P.A)
+                            for c in (c0 - 1, c0, c0 + 1):
+                                if fits(P.w1, c) and fits(64, c * P.cn) and not fits(32, P.cast(c)):
+                                    out.append(f"{h('castw')} {c}")
                 # time_point wrappers: a sample of the same counts
                 tpc = list(range(-2000, 2001, 401 if quick else 23)) + ic[:: (7 if quick else 1)]
                 for c in tpc:
